@@ -1,8 +1,5 @@
-"""Message header constants and the per-type length rule (Message.Length lambdas, read by AST)."""
+"""Message header constants and the per-type length rule (Message.Length: every validator run on every length)."""
 
-import ast
-import inspect
-import textwrap
 
 
 def generate() -> dict[str, str]:
@@ -11,34 +8,26 @@ def generate() -> dict[str, str]:
     from exabgp.reactor.network import connection
     import exabgp.reactor.protocol  # noqa: F401  (imports every message class the reactor registers)
 
-    src = inspect.getsource(Message)
-    tree = ast.parse(textwrap.dedent(src))
+    # the rule of every type is MEASURED: the validator is run on every length a header can carry (0 … 65535, and a
+    # few beyond) and the set it accepts must be one of `>= c`, `== c`, `<= c` (a rule written `> c` or `< c` is the
+    # same set as `>= c + 1` / `<= c - 1`); how the validators are written (lambdas, functions, a table) does not matter
     rules = []  # (code, op, const)
-    ops = {ast.GtE: 'ge', ast.Eq: 'eq', ast.LtE: 'le', ast.Gt: 'gt', ast.Lt: 'lt'}
-    found = False
-    for node in ast.walk(tree):
-        if isinstance(node, ast.AnnAssign) and getattr(node.target, 'id', None) == 'Length':
-            found = True
-            d = node.value
-            assert isinstance(d, ast.Dict)
-            for k, v in zip(d.keys, d.values):
-                # key: CODE.NAME ; value: lambda _: _ OP const
-                assert isinstance(k, ast.Attribute) and isinstance(k.value, ast.Name) and k.value.id == 'CODE', ast.dump(k)
-                code = int(getattr(Message.CODE, k.attr))
-                assert isinstance(v, ast.Lambda) and len(v.args.args) == 1, ast.dump(v)
-                arg = v.args.args[0].arg
-                body = v.body
-                assert isinstance(body, ast.Compare) and len(body.ops) == 1 and isinstance(body.left, ast.Name) and body.left.id == arg, ast.dump(body)
-                assert isinstance(body.comparators[0], ast.Constant) and isinstance(body.comparators[0].value, int)
-                rules.append((code, ops[type(body.ops[0])], body.comparators[0].value))
-    if not found:
-        raise RuntimeError('Message.Length not found')
-    # cross-check the AST reading against the live lambdas on a sweep of lengths
-    for code, op, c in rules:
-        f = Message.Length[code]
-        for n in range(0, 70000, 1) if False else list(range(0, 64)) + [4095, 4096, 4097, 65534, 65535, 65536]:
-            want = {'ge': n >= c, 'eq': n == c, 'le': n <= c, 'gt': n > c, 'lt': n < c}[op]
-            assert bool(f(n)) == want, (code, n)
+    top = 65535 + 64
+    for code, f in sorted(Message.Length.items(), key=lambda kv: int(kv[0])):
+        acc = [n for n in range(top + 1) if bool(f(n))]
+        if not acc:
+            raise RuntimeError(f'Message.Length[{int(code)}] accepts no length at all')
+        lo, hi = acc[0], acc[-1]
+        if acc != list(range(lo, hi + 1)):
+            raise RuntimeError(f'Message.Length[{int(code)}]: the accepted lengths are not an interval')
+        if lo == hi:
+            rules.append((int(code), 'eq', lo))
+        elif hi == top:
+            rules.append((int(code), 'ge', lo))
+        elif lo == 0:
+            rules.append((int(code), 'le', hi))
+        else:
+            raise RuntimeError(f'Message.Length[{int(code)}]: accepts exactly [{lo}, {hi}], which is none of >= c, == c, <= c')
     assert set(Message.Length) == {r[0] for r in rules}
     default_min = connection.MIN_BGP_MESSAGE_LENGTH
     assert connection._default_length_validator(default_min) and not connection._default_length_validator(default_min - 1)
